@@ -210,7 +210,7 @@ func sameSignedContent(orig, mut []byte, chainID string) (bool, string) {
 }
 
 func checkC16(r *ev.Run) {
-	nScripts := r.N(4, 100)
+	nScripts := r.N(8, 100)
 	r.Rule("case = a freshly signed, valid transaction T (send, DAO transfer, DAO burn, parameter change, application edit-stake, node unjail attempt) delivered once, followed by a second delivery that is either the identical bytes or one of 6 semantics-preserving re-encodings of the length-prefixed protobuf (non-minimal length prefix, appended unknown field, duplicated scalar field, reversed field order, non-minimal inner varint, non-minimal nested length), placed in the same block (right after T, or after other txs) or in a later block (1-3 blocks later, after the driver indexed T as Tendermint does). Each re-encoding is first checked, with the application's own decoder, to carry the same sign bytes, signature and public key and to verify. Oracle (per-tx pre/post snapshots): the second delivery must be rejected and leave every store digest unchanged. Post-upgrade (protobuf) codec with all features active; the legacy amino era (heights 1-2 of the bootstrap) is not exercised. Non-trivial = the first delivery was accepted; distinct = (message kind, class, placement).")
 	r.Assume("the driver indexes a block's transactions after Commit and before the next block, like Tendermint's indexer service")
 	ev.ForEach(nScripts, workers(), func(si int) {
